@@ -720,6 +720,79 @@ def strip(e):
         e = e[1] if e[0] in ("paren", "mcall") else e[2]
     return e
 
+
+# ---- syntactic helpers of the canonicalisations (round four, package robust; see the header)
+def unparen(e):
+    while e[0] == "paren": e = e[1]
+    return e
+
+def ast_eq(a, b):
+    """structural equality of two expressions, parentheses ignored"""
+    if isinstance(a, tuple) and isinstance(b, tuple):
+        a, b = unparen(a), unparen(b)
+        return len(a) == len(b) and all(ast_eq(x, y) for x, y in zip(a, b))
+    if isinstance(a, list) and isinstance(b, list):
+        return len(a) == len(b) and all(ast_eq(x, y) for x, y in zip(a, b))
+    return a == b
+
+def mentions(node, name):
+    """the identifier occurs somewhere in the piece of syntax (variables, struct-literal shorthands, macro texts)"""
+    if isinstance(node, tuple):
+        if node and node[0] == "var" and node[1] == name: return True
+        if node and node[0] == "macro" and isinstance(node[-1], str) and name in re.findall(r"[A-Za-z_][A-Za-z0-9_]*", node[-1]): return True
+        return any(mentions(x, name) for x in node[1:])
+    if isinstance(node, list): return any(mentions(x, name) for x in node)
+    return False
+
+def vars_of(node, acc=None):
+    """the identifiers used as variables in an expression"""
+    acc = set() if acc is None else acc
+    if isinstance(node, tuple):
+        if node and node[0] == "var": acc.add(node[1])
+        for x in node[1:]: vars_of(x, acc)
+    elif isinstance(node, list):
+        for x in node: vars_of(x, acc)
+    return acc
+
+def continues_here(node):
+    """a `continue` that belongs to the loop whose body this is (nested loops and closures are not entered)"""
+    if isinstance(node, tuple):
+        if node and node[0] in ("continue", "cont_expr"): return True
+        if node and node[0] in ("for", "while", "closure"): return False
+        return any(continues_here(x) for x in node[1:])
+    if isinstance(node, list): return any(continues_here(x) for x in node)
+    return False
+
+def assigns(node, name):
+    """the piece of syntax assigns the variable `name` or a place inside it, or borrows it mutably (syntactic, conservative)"""
+    if isinstance(node, tuple):
+        if node and node[0] == "assign":
+            pl = strip(node[2])
+            while pl[0] in ("field", "index"): pl = strip(pl[1])
+            if pl == ("var", name): return True
+        if node and node[0] == "un" and node[1] == "&mut" and mentions(node[2], name): return True
+        if node and node[0] == "let" and pat_binds(node[1], name): return True          # re-declared inside: give up
+        return any(assigns(x, name) for x in node[1:])
+    if isinstance(node, list): return any(assigns(x, name) for x in node)
+    return False
+
+def pat_binds(pat, name):
+    if pat[0] == "pvar": return pat[1] == name
+    if pat[0] == "ptuple": return any(pat_binds(q, name) for q in pat[1])
+    if pat[0] == "pctor": return pat_binds(pat[2], name)
+    return False
+
+def is_one(e):
+    e = unparen(e)
+    return e[0] == "num" and e[1].replace("_", "") in ("1", "1usize")
+
+def is_step(st, name, sign):
+    """the statement is `name += 1` / `name = name + 1` (sign '+') resp. `name -= 1` / `name = name - 1` (sign '-')"""
+    if st[0] != "assign" or unparen(st[2]) != ("var", name): return False
+    if st[1] == sign + "=": return is_one(st[3])
+    r = unparen(st[3])
+    return st[1] == "=" and r[0] == "bin" and r[1] == sign and unparen(r[2]) == ("var", name) and is_one(r[3])
+
 class Translator:
     """one function at a time.  `tables` (driver/r2c_table.py): METHODS, PATHS, BINOPS, UNOPS, FIELDS, CONSTS."""
     def __init__(self, tables, spec):
@@ -964,7 +1037,25 @@ class Translator:
             return self.apply_fn(self.tb.METHODS[("index", ty)], [base, i], B)
         self.bad("indexing into a value of type %s" % (ty,))
 
+    def canon_if(self, e, env):
+        """an `if` WITH an else arm, negated condition:  if !c {X} else {Y}  ==>  if c {Y} else {X};  and on usize / isize / bool
+        operands (total orders -- never on floating-point elements, where a NaN makes `a >= b` differ from `!(a < b)`)
+        `!=`, `>=`, `>`  ==>  `==`, `<`, `<=` with the arms exchanged"""
+        c, th, el = e[1], e[2], e[3]
+        if el is None or (not el[1] and el[2] is None): return e
+        while True:
+            cu = unparen(c)
+            if cu[0] == "un" and cu[1] == "!":
+                c, th, el = cu[2], el, th; continue
+            if cu[0] == "bin" and cu[1] in ("!=", ">=", ">"):
+                tys = {self.type_of(cu[2], env), self.type_of(cu[3], env)} - {"lit"}
+                if len(tys) <= 1 and tys <= {"usize", "isize", "bool"} and (cu[1] == "!=" or "bool" not in tys):
+                    c, th, el = ("bin", {"!=": "==", ">=": "<", ">": "<="}[cu[1]], cu[2], cu[3]), el, th; continue
+            break
+        return ("if", c, th, el)
+
     def if_value(self, e, env, B):
+        e = self.canon_if(e, env)
         c, tc = self.ex(e[1], env, B)
         if tc != "bool": self.bad("`if` condition of type %s" % (tc,))
         th, el = e[2], e[3]
@@ -1049,6 +1140,13 @@ class Translator:
                     and clo[2][1] == ("var", clo[1][0][1]) and clo[2][2].isdigit()):
                 self.bad(".sort_by_key(..) whose key is not `|x| x.<k>`")
             name, args = "sort_by_key:proj%s" % clo[2][2], []
+        rv = strip(recv)
+        if name == "push" and len(args) == 1 and rv[0] == "var" and getattr(env.lookup(rv[1]), "flex", False):
+            fv, ta = env.lookup(rv[1]), self.type_of(args[0], env)
+            if ta == "lit": ta = "usize"
+            cand = [l for l, el in LISTS.items() if el == ta and l != "poly"]
+            if ta != LISTS[fv.ty] and len(cand) == 1: fv.ty = cand[0]
+            fv.flex = False                              # typed by its first push
         r, tr = self.ex(recv, env, B)
         if isinstance(tr, tuple) and tr[0] == "opt" and name == "unwrap" and not args:
             v = self.fresh("u"); B.append(("bind", ("v", v), ("app", "unwrap_opt", [g_raw(r)]))); return (v, tr[1])
@@ -1281,7 +1379,9 @@ class Translator:
             return rest(env2)
         if kind == "assign": return self.assign_stmt(s, env, rest)
         if kind == "for": return self.for_stmt(s, env, rest)
-        if kind == "while": return self.while_stmt(s, env, rest)
+        if kind == "while":
+            t = self.counter_while(s, ss, i, tail, env, rest)
+            return t if t is not None else self.while_stmt(s, env, rest)
         if kind == "return":
             if s[1] is None: return self.ctx.ret(env, None)
             B = []; v = self.ex(s[1], env, B); return wrap(B, self.ctx.ret(env, v))
@@ -1323,6 +1423,20 @@ class Translator:
             return self.block(sc[1], env2, lambda env3, v: k(env.merge(env3), v))
         if e[0] == "if" and (e[3] is None or e[2][2] is None):       # a unit `if` in tail position
             return self.if_stmt(e, env, lambda env2: k(env2, None))
+        if e[0] == "if":
+            e = self.canon_if(e, env)
+            def plain(blk):
+                t = blk[2]
+                return not blk[1] and t is not None and t[0] not in ("if", "match", "ret_expr", "cont_expr", "block") \
+                       and not (t[0] == "macro" and t[1] in ("panic", "unreachable"))
+            if not (plain(e[2]) and plain(e[3])):
+                # a value `if` in tail position whose arms are blocks: each arm continues with the continuation of the block
+                # (`if c { return a; } rest` and `if c { a } else { rest }` are the same term)
+                B = []
+                c, tc = self.ex(e[1], env, B)
+                if tc != "bool": self.bad("`if` condition of type %s" % (tc,))
+                kk = lambda env2, v: k(env.merge(env2), v)
+                return wrap(B, ("if", c, self.block(e[2], env, kk), self.block(e[3], env, kk)))
         if e[0] == "macro" and e[1] in ("panic", "unreachable"): return ("panic", "Guard")
         if e[0] == "ret_expr":
             if e[1] is None: return self.ctx.ret(env, None)
@@ -1372,6 +1486,12 @@ class Translator:
                 dty = rust_type(ty, self.selfty) if ty else "usize"
                 t = self.lit(t, "lit", dty); tv = dty
             env2, v = env.declare(pat[1], self.gname(pat[1]), tv)
+            if ov is None and isinstance(tv, str) and tv in LISTS and t.startswith("(@nil") and not B:
+                # an empty vector whose element type the table does not give: typed by the first `.push(x)` on it (mcall); the
+                # binder is built after the rest of the block has been translated, with the type found there
+                v.flex = True
+                body = rest(env2)
+                return ("let", ("v", v.g), g_raw("(@nil %s)" % gtype(LISTS[v.ty])), body)
             # a let of a plain value is a Gallina let; if the initialiser was a single fallible step, rename its binder
             if B and B[-1][0] == "bind" and B[-1][1] == ("v", t):
                 B[-1] = ("bind", ("v", v.g), B[-1][2])
@@ -1481,6 +1601,7 @@ class Translator:
         self.bad("compound assignment to an unsupported place")
 
     def if_stmt(self, e, env, rest):
+        e = self.canon_if(e, env)
         B = []
         c, tc = self.ex(e[1], env, B)
         if tc != "bool": self.bad("`if` condition of type %s" % (tc,))
@@ -1518,9 +1639,11 @@ class Translator:
         for v in M: self.ctx.note(v)
         return wrap(B, mk_bind(names_pat(names), ("if", c, a, b), rest(env_after)))
 
-    def for_stmt(self, s, env, rest):
+    def for_stmt(self, s, env, rest, after=None):
         pat, it, body = s[1], strip(s[2]), s[3]
         if pat[0] != "pvar": self.bad("`for` with a tuple pattern")
+        cd = self.countdown_for(pat, it, body, env)
+        if cd is not None: return self.for_stmt(cd, env, rest, after)
         if it[0] == "mcall" and it[2] == "drain" and len(it[3]) == 1 and strip(it[3][0])[0] == "range" \
            and strip(it[3][0])[1] is None and strip(it[3][0])[2] is None:
             return self.for_in_stmt(pat, it[1], body, env, rest, drain=True)
@@ -1572,12 +1695,113 @@ class Translator:
             fun = ("fun", [(iv.g, None), ("_", "unit")], bt)
         loop = ("app", "for_z" if signed else ("for_rev" if rev else "for_"), [g_raw(lo), g_raw(hi), fun, g_raw(names_term(names))])
         for v in M: self.ctx.note(v)
+        B2 = after(lo, hi) if after is not None else []          # a canonicalised counter loop: the final value of its counter
         if early:
             loop = ("app", "for_ret", loop[2])
             o, r = self.fresh("o"), self.fresh("r")
             pat_inl = "inl " + (names_term(names) if names else "_")
-            return wrap(B, ("bind", ("v", o), loop, ("match", o, [(pat_inl, rest(env)), ("inr %s" % r, outer_ctx.ret_raw(r))])))
-        return wrap(B, mk_bind(names_pat(names), loop, rest(env)))
+            return wrap(B, ("bind", ("v", o), loop, ("match", o, [(pat_inl, wrap(B2, rest(env))), ("inr %s" % r, outer_ctx.ret_raw(r))])))
+        return wrap(B, mk_bind(names_pat(names), loop, wrap(B2, rest(env))))
+
+    # ------------------------------------------------------------------ canonicalisation of counter loops (see the header)
+    def dry(self, run):
+        """run a piece of translation for its effects on a recorder only: returns the set of variables it assigns"""
+        rec = set()
+        saved = (self.n, self.ctx, set(getattr(self, "killed", ())), getattr(self, "nwhile", 0))
+        try:
+            self.ctx = self.ctx.sub(record=rec, cont=lambda env2: g_ok(g_raw("tt")))
+            run()
+        finally:
+            self.n, self.ctx, self.killed, self.nwhile = saved
+        return rec
+
+    def loop_effects(self, var, body, env):
+        """the outer variables a loop body assigns, `var` being its (usize) loop variable"""
+        env_i, iv = env.declare(var, self.gname(var), "usize")
+        rec = self.dry(lambda: self.block(body, env_i, lambda env2, v: g_ok(g_raw("tt"))))
+        return [v for v in env.visible() if v in rec]
+
+    def invariant_in(self, e, env, M):
+        """the expression reads none of the variables M and evaluating it assigns nothing: it has the same value (or the same
+        panic) whenever it is evaluated while only the variables M change"""
+        for x in vars_of(e):
+            if env.lookup(x) is not None and env.lookup(x) in M: return False
+        return not self.dry(lambda: self.ex(e, env, []))
+
+    def type_of(self, e, env):
+        out = []
+        self.dry(lambda: out.append(self.ex(e, env, [])[1]))
+        return out[0]
+
+    def countdown_for(self, pat, it, body, env):
+        """for K in 0..N { let I = N - 1 - K; BODY }   ==>   for I in (0..N).rev() { BODY }
+        when K does not occur in BODY, BODY does not assign I and N is invariant in BODY: in pass K (0 <= K < N) the two
+        checked subtractions N - 1 and (N - 1) - K succeed and I takes the values N-1, .., 0 in this order."""
+        if it[0] != "range" or it[1] is None or it[2] is None or it[3] or unparen(it[1]) not in (("num", "0"), ("num", "0usize")): return None
+        if not body[1] or body[1][0][0] != "let": return None
+        lt = body[1][0]
+        if lt[1][0] != "pvar" or lt[3] is None: return None
+        I, K, e = lt[1][1], pat[1], unparen(lt[3])
+        if I == K or K == "_": return None
+        if not (e[0] == "bin" and e[1] == "-" and unparen(e[3]) == ("var", K)): return None
+        e1 = unparen(e[2])
+        if not (e1[0] == "bin" and e1[1] == "-" and is_one(e1[3]) and ast_eq(e1[2], it[2])): return None
+        body2 = ("blk", body[1][1:], body[2])
+        if mentions(body2, K) or assigns(body2, I) or mentions(it[2], I) or mentions(it[2], K): return None
+        if not self.invariant_in(it[2], env, self.loop_effects(I, body2, env)): return None
+        return ("for", ("pvar", I, False), ("mcall", ("paren", it), "rev", []), body2)
+
+    def counter_while(self, s, ss, idx, tail, env, rest):
+        """`while` loops whose trip count is fixed by a counter are `for` loops (the fuel comes from the counter, not from the table):
+             while i < H { BODY; i += 1; }      ==>  for i in i..H { BODY }        ; i = max(i, H)     (no `continue` in BODY)
+             while i < H { i += 1; BODY }       ==>  for k in i..H { let i = k + 1; BODY }   ; i = max(i, H)
+             while i > L { i -= 1; BODY }       ==>  for i in (L..i).rev() { BODY }  ; i = min(i, L)
+           (`<=` as an inclusive range; `i != 0` as `i > 0`; the bound on either side) provided that BODY does not assign i and the
+           bound is invariant in BODY.  Returns None when the loop is not of this shape (the table-driven translation applies)."""
+        if (self.spec.get("while") or {}).get(getattr(self, "nwhile", 0) + 1) is not None: return None       # the table wins
+        cond, body = unparen(s[1]), s[2]
+        if body[2] is not None:                        # the body of a `while` has type (): a last expression without `;` is a statement
+            body = ("blk", list(body[1]) + [("expr", body[2], False)], None)
+        if cond[0] != "bin" or not body[1]: return None
+        flip = {"<": ">", ">": "<", "<=": ">=", ">=": "<=", "!=": "!="}
+        op, a, b = cond[1], unparen(cond[2]), unparen(cond[3])
+        if op not in flip: return None
+        def counter(x, other):
+            return x[0] == "var" and not mentions(other, x[1]) and env.lookup(x[1]) is not None \
+                   and env.lookup(x[1]).ty == "usize" and env.lookup(x[1]) not in env.uninit
+        if counter(a, b): name, bound = a[1], b
+        elif counter(b, a): name, bound, op = b[1], a, flip[op]
+        else: return None
+        v, st = env.lookup(name), body[1]
+        if op in ("<", "<="):
+            if is_step(st[-1], name, "+") and len(st) > 1: kind, inner = "up", st[:-1]
+            elif is_step(st[0], name, "+"): kind, inner = "up1", st[1:]
+            else: return None
+        elif op == ">" or (op == "!=" and unparen(bound) in (("num", "0"), ("num", "0usize"))):
+            if not is_step(st[0], name, "-"): return None
+            kind, inner = "down", st[1:]
+        else: return None
+        if assigns(inner, name): return None
+        if kind == "up" and continues_here(inner): return None
+        loopvar = name
+        if kind == "up1":
+            loopvar = "_"
+            if mentions(inner, name):
+                loopvar = name + "__k"
+                inner = [("let", ("pvar", name, False), None, ("bin", "+", ("var", loopvar), ("num", "1")))] + list(inner)
+        inner_blk = ("blk", list(inner), None)
+        M = self.loop_effects(loopvar, inner_blk, env)
+        if v in M or not self.invariant_in(bound, env, M): return None
+        # is the counter dead after the loop?  (declared in this very block and never mentioned again)
+        dead = any(x[0] == "let" and pat_binds(x[1], name) for x in ss[:idx]) and not mentions(ss[idx + 1:], name) \
+               and (tail is None or not mentions(tail, name))
+        if kind == "down": it = ("mcall", ("paren", ("range", bound, ("var", name), False)), "rev", [])
+        else: it = ("range", ("var", name), bound, op == "<=")
+        def after(lo, hi):
+            self.ctx.note(v)
+            if dead: return []
+            return [("let", ("v", v.g), g_raw("(Nat.min %s %s)" % (hi, lo) if kind == "down" else "(Nat.max %s %s)" % (lo, hi)))]
+        return self.for_stmt(("for", ("pvar", loopvar, False), it, inner_blk), env, rest, after=after)
 
     def for_in_stmt(self, pat, src, body, env, rest, drain):
         """for x in v.drain(..) { body }: the elements in order (for_in, gen/SrcPrelude.v); v is empty afterwards"""
